@@ -32,11 +32,11 @@ struct Observer {
 
     static void run(Sys& sys, State& s) {
         Walk wa = sys.walk(*s.a);
-        if (!wa.errs.empty()) return;  // broken structure: reported by the transition oracle, nothing to query
+        if (wa.cyclic()) return;  // unbounded structure: reported by the transition oracle, nothing to query
         one_tree(sys, s, *s.a, s.ma, wa, "a");
         if (s.b) {
             Walk wb = sys.walk(*s.b);
-            if (!wb.errs.empty()) return;
+            if (wb.cyclic()) return;
             one_tree(sys, s, *s.b, s.mb, wb, "b");
             KVs av = seq(*s.a, s.ma.size()), bv = seq(*s.b, s.mb.size());
             rel(*s.a, *s.b, av, bv, "a vs b");
@@ -130,9 +130,9 @@ struct Observer {
     }
 
     template <class TT>
-    static void queries(TT& t, const Walk& w, const KVs& mv, const Model& m, int qlo, int qhi, const char* which) {
+    static void queries(TT& t, const Walk& w, const KVs& mv, const Model& m, int qlo, int qhi, int step, const char* which) {
         int n = (int)mv.size();
-        for (int q = qlo; q <= qhi; ++q) {
+        for (int q = qlo; q <= qhi; q += step) {
             E qe = EOps<E>::make(q);
             int lo = Sys::lower_idx(mv, q), hi = Sys::upper_idx(mv, q);
             size_t mc = m.count(q);
@@ -211,8 +211,16 @@ struct Observer {
         }
 
         int qlo = -1, qhi = sys.universe(m);
-        queries<Tree>(t, w, mv, m, qlo, qhi, which);
-        queries<const Tree>(ct, w, mv, m, qlo, qhi, (tag + " const").c_str());
+        if (sys.P.mode == 'A') {
+            queries<Tree>(t, w, mv, m, qlo, qhi, 1, which);
+            queries<const Tree>(ct, w, mv, m, qlo, qhi, 1, (tag + " const").c_str());
+        } else {
+            // mode B (large universes): every key is queried in every new state, alternating between the const and
+            // the non-const overloads (which one gets the even keys alternates with the size of the tree)
+            int par = (n & 1);
+            queries<Tree>(t, w, mv, m, qlo + ((qlo + par) & 1), qhi, 2, which);
+            queries<const Tree>(ct, w, mv, m, qlo + ((qlo + par + 1) & 1), qhi, 2, (tag + " const").c_str());
+        }
 
         // key_comp / value_comp
         {
